@@ -195,3 +195,11 @@ Theorem C09_mapor_kmn_stale_merge (H : list (oprec (mop oop))) :
   mmerge orswot_valops s1 s2 = s1 /\ mmerge orswot_valops s2 s1 = s1.
 Proof. exact (mapor_stale_merge_kmn H). Qed.
 Print Assumptions C09_mapor_kmn_stale_merge.
+
+(** Map<K, MVReg> (MVReg leaves) WITHOUT key removes, op-based replication (no state merges), per-actor delivery with duplicates: a re-delivered op changes nothing at all (proofs/MapMVRegNK.v) *)
+From Crdt Require Import model.MVReg model.Map spec.System spec.OrswotSpec spec.OrswotSystem spec.Specs spec.MapSpec spec.MapSystem spec.MapMVRegSpec proofs.MapMVRegNK.
+Theorem C09_mapmv_dup_apply_nk (H : list (oprec (mop mvop))) :
+  mvhist_ok_nk H -> forall (s : cmap (list (gmap N N * N))) (K : gset nat) (i : nat) (r : oprec (mop mvop)),
+  mvreach_nk H s K -> H !! i = Some r -> i ∈ K -> mapply mvreg_valops s (op_val r) = s.
+Proof. exact (mapmv_dup_apply_nk H). Qed.
+Print Assumptions C09_mapmv_dup_apply_nk.
